@@ -6,7 +6,7 @@ import ast
 from ..cfg import cfg_of
 from ..core import (
     ancestors, assigns_to, body_walk, call_attr, call_name, calls_in, const_value, dotted, enclosing_stmt, handler_catches,
-    in_block, is_const, kwarg, names_in, nodes_of_type, parent, stores_to, unparse, walk_local, enclosing_withs, cond_holds, cond_facts,
+    in_block, is_const, kwarg, names_in, nodes_of_type, parent, stores_to, unparse, walk_local, enclosing_withs, cond_holds, cond_facts, Undecidable,
 )
 
 CP = "joblib/compressor.py"
@@ -51,6 +51,66 @@ def _sources(v):
     return [v]
 
 
+
+# ---------------------------------------------------------------------------
+# abstract cursor state of BinaryZlibFile: (buffer in {E empty, N non-empty}, offset in {Z zero, L len(buffer), M between})
+# "unread data remains"  <=>  buffer N and offset in {Z, M}.  E makes Z and L coincide.
+# ---------------------------------------------------------------------------
+
+def _refill_test_kind(t):
+    """'offset' for tests equivalent to offset == len(buffer); 'empty' for tests equivalent to len(buffer) == 0"""
+    u = unparse(t)
+    if u in ("self._buffer_offset == len(self._buffer)", "len(self._buffer) == self._buffer_offset", "len(self._buffer) <= self._buffer_offset", "not self._buffer_offset < len(self._buffer)"):
+        return "offset"
+    if u in ("not self._buffer", "len(self._buffer) == 0", "self._buffer == b''", "not len(self._buffer)"):
+        return "empty"
+    return None
+
+
+def _refill_test_holds(kind, state):
+    buf, off = state
+    if kind == "offset":
+        return off == "L" or (buf == "E" and off == "Z")
+    return buf == "E"
+
+
+def _cursor_after(stmts, state):
+    """transfer of the statements that write the cursor; None if one of them is not understood"""
+    buf, off = state
+    for st in stmts:
+        if isinstance(st, ast.Assign) and "self._buffer" in stores_to(st) and len(st.targets) == 1:
+            v = st.value
+            if const_value(v) == b"":
+                buf, off = "E", ("Z" if off in ("Z", "L") else off)
+                if off == "M":
+                    return None
+            elif unparse(v) == "self._buffer[self._buffer_offset:]":
+                if off == "L":
+                    buf = "E"
+                elif off == "M":
+                    off = None   # offset now points past the re-based data until it is reset
+                # Z: unchanged
+            else:
+                return None
+        elif isinstance(st, ast.Assign) and "self._buffer_offset" in stores_to(st) and len(st.targets) == 1:
+            v = st.value
+            if is_const(v, 0):
+                off = "Z"
+            elif unparse(v) == "len(self._buffer)":
+                off = "L"
+            else:
+                return None
+        elif isinstance(st, (ast.If, ast.While, ast.For, ast.Try, ast.With)) and ({"self._buffer", "self._buffer_offset"} & {x for n_ in ast.walk(st) if isinstance(n_, (ast.Assign, ast.AugAssign)) for x in stores_to(n_)}):
+            return None
+        elif isinstance(st, ast.AugAssign) and dotted(st.target) in ("self._buffer", "self._buffer_offset"):
+            return None
+    if off is None:
+        return None
+    if buf == "E" and off == "L":
+        off = "Z"
+    return (buf, off)
+
+
 def progress(ctx):
     # (1) _fill_buffer
     f = ZF(ctx, "_fill_buffer")
@@ -58,8 +118,9 @@ def progress(ctx):
     loops = _loops(f)
     ctx.need(len(loops) == 1, "_fill_buffer has %d while loops (one declared variant)" % len(loops))
     lp = loops[0]
-    ctx.check(unparse(lp.test) in ("self._buffer_offset == len(self._buffer)", "len(self._buffer) == self._buffer_offset", "len(self._buffer) <= self._buffer_offset"), lp,
-              "the refill loop runs exactly while the buffer is exhausted (offset == len)", "the refill loop runs while `%s`: unread bytes are overwritten, or an empty buffer is reported as data" % unparse(lp.test))
+    kind = _refill_test_kind(lp.test)
+    ctx.check(kind is not None, lp, "the refill loop runs while no unread data is left (%s form of the test)" % kind,
+              "the refill loop runs while `%s`, which is neither `offset == len(buffer)` nor `buffer is empty`: unread bytes are overwritten, or an empty buffer is reported as data" % unparse(lp.test))
     rt = [r for r in nodes_of_type(f, ast.Return) if is_const(r.value, True)]
     ctx.check(bool(rt) and all(not in_block(r, lp.body) for r in rt), rt[0] if rt else f, "'data available' is answered only after the loop condition became false")
     dec = [c for c in calls_in(lp) if call_name(c) == "self._decompressor.decompress"]
@@ -113,9 +174,14 @@ def progress(ctx):
     ctx.need(len(loops) == 1, "_read_all has %d while loops" % len(loops))
     lp = loops[0]
     ctx.check(isinstance(lp.test, ast.Call) and call_name(lp.test) == "self._fill_buffer", lp, "loop runs while the buffer could be refilled")
-    clr = [a for a in lp.body if isinstance(a, ast.Assign) and "self._buffer" in stores_to(a) and const_value(a.value) == b""]
-    ctx.check(len(clr) == 1 and _back_edge_unconditional(lp, clr[0]), clr[0] if clr else lp, "every iteration empties the buffer (so the next refill must read the file)",
-              "the buffer is not emptied on every iteration of _read_all: the loop never ends")
+    fb_ = ZF(ctx, "_fill_buffer")
+    kind = _refill_test_kind(_loops(fb_)[0].test) if _loops(fb_) else None
+    if kind is not None:
+        after = _cursor_after(lp.body, ("N", "Z"))
+        if after is None:
+            raise Undecidable("_read_all's loop body writes the buffer cursor in a way the abstract cursor does not model")
+        ctx.check(_refill_test_holds(kind, after), lp, "after each iteration the cursor state %s makes the refill test true (the next refill reads the file; the loop ends at EOF)" % (after,),
+                  "after an iteration of _read_all the cursor is %s, for which the refill test `%s` is false: the same buffer is collected again and the loop never ends" % (after, unparse(_loops(fb_)[0].test)))
     # (4) _read_bytes
     rby = ctx.repo.func(NPU, "_read_bytes")
     loops = _loops(rby)
@@ -268,7 +334,15 @@ def cursor(ctx):
         elif dotted(v) == "self._buffer":
             n += 1
             st = [s for s in blk if isinstance(s, ast.Assign) and "self._buffer" in stores_to(s) and const_value(s.value) == b""]
-            ctx.check(bool(st), a, "a buffer consumed whole is replaced by b''", "the whole buffer is handed out but not emptied: it would be returned again")
+            fb_ = ZF(ctx, "_fill_buffer")
+            kind = _refill_test_kind(_loops(fb_)[0].test) if _loops(fb_) else None
+            if kind is None:
+                raise Undecidable("refill test of _fill_buffer not recognised")
+            after = _cursor_after(blk, ("N", "Z"))
+            if after is None:
+                raise Undecidable("the whole-buffer branch of _read_block writes the cursor in a way the abstract cursor does not model")
+            ctx.check(_refill_test_holds(kind, after), a, "after the whole buffer was handed out the cursor state %s makes the refill test true (%s form)" % (after, kind),
+                      "the whole buffer is handed out, leaving the cursor at %s, but the refill test `%s` is false in that state: the same block is returned again and again" % (after, unparse(_loops(fb_)[0].test)))
             if st:
                 g_ = cfg_of(f)
                 ctx.check(not g_.path_exists(g_.nodes_of(st[0]), g_.nodes_of(a), avoid=g_.nodes_of(_loops(f)[0]) if _loops(f) else ()), a, "the buffer is handed out before it is emptied",
@@ -701,6 +775,16 @@ def magic(ctx):
     de = [c for c in calls_in(init) if call_name(c) == "zlib.decompressobj"]
     ctx.check(bool(co) and len(co[0].args) >= 3 and dotted(co[0].args[2]) == "self.wbits" and dotted(co[0].args[0]) == "self.compresslevel", co[0] if co else init, "the compressor uses the class's wbits and the requested level")
     ctx.check(bool(de) and dotted(de[0].args[0]) == "self.wbits", de[0] if de else init, "the decompressor uses the class's wbits")
+    # every (de)compressor the class ever builds - the rewind of the emulated seek included - speaks the class's format
+    for q_, fn_ in ctx.repo.mod(CP).funcs.items():
+        if not q_.startswith(Z + "."):
+            continue
+        for c_ in calls_in(fn_):
+            if call_name(c_) == "zlib.decompressobj":
+                ctx.check(bool(c_.args) and dotted(c_.args[0]) == "self.wbits", c_, "%s builds its decompressor with self.wbits" % q_,
+                          "%s builds a decompressor with %s: in the gzip subclass the stream is no longer readable after this point (e.g. after seek(0) of the magic-number sniff)" % (q_, unparse(c_.args[0]) if c_.args else "the default window"))
+            if call_name(c_) == "zlib.compressobj":
+                ctx.check(len(c_.args) >= 3 and dotted(c_.args[2]) == "self.wbits", c_, "%s builds its compressor with self.wbits" % q_, "%s builds a compressor with another window/format than self.wbits" % q_)
 
 
 LEVEL_KW = {"BinaryZlibFile": "compresslevel", "BinaryGzipFile": "compresslevel", "bz2.BZ2File": "compresslevel", "lzma.LZMAFile": "preset", "LZ4FrameFile": "compression_level"}
